@@ -42,7 +42,7 @@ Proof. exact dec_val_numeric. Qed.
 Print Assumptions C16_numeric_has_value.
 
 (* What WriteInferred decides for a text: bare numeral iff isNumeric; else true/false iff the text
-   equals the word under case folding; else a string of exactly the text. *)
+   equals the word under ASCII case folding; else a string of exactly the text. *)
 Theorem C16_infer_spec : forall v,
   match infer v with
   | JNum lit => lit = v /\ is_numeric v = true
@@ -53,12 +53,26 @@ Theorem C16_infer_spec : forall v,
 Proof. exact infer_spec. Qed.
 Print Assumptions C16_infer_spec.
 
+(* true/false: a boolean member b stands for a text that equals the word "true"/"false" after mapping
+   A..Z to a..z and nothing else (no Unicode folding: the long s U+017F or the Kelvin sign do not count) *)
+Theorem C16_bool_ascii_only : forall w s, fold_eq w s = true <-> map ascii_lower s = w.
+Proof. exact fold_eq_ascii. Qed.
+Print Assumptions C16_bool_ascii_only.
+
+(* AS FOUND (strings.EqualFold, before fixes/C16-bool-long-s.patch) the clause was false: the capture
+   fal<U+017F>e was written as the boolean false, which does not decode to the captured text; the
+   repaired inference writes it as a string. *)
+Theorem C16_bool_asfound_refuted :
+  exists v, infer_asfound v = JBool false /\ member_ok_b v (infer_asfound v) = false /\ infer v = JStr v.
+Proof. exact bool_asfound_refuted_proof. Qed.
+Print Assumptions C16_bool_asfound_refuted.
+
 (* VALID AND FAITHFUL.  For every name table (in any iteration order), line, index vector and
    view: if the view is produced (no slicing panic), it is one syntactically valid JSON object
    (the strict reader accepts the whole text), with one member per expected (name, group text)
    pair, in order, whose name is the group name and whose value decodes to the group text:
    a string with exactly the captured bytes, or a number with the same decimal value, or
-   true/false for a text equal to that word up to case folding. *)
+   true/false for a text equal to that word up to ASCII case. *)
 Theorem C16_valid_faithful : forall nm nb tbl line ix text,
   json_view nm nb tbl line ix = Ok text ->
   exists exp ms, expected_members nm nb tbl line ix = Ok exp /\
